@@ -141,6 +141,52 @@ def gen_cases(ctx):
     return out
 
 
+def inpanel_cases(ctx, start_id):
+    """the updates INSIDE a panel (p?gstrf_column_bmod): a supernode of b >= 5 columns that lies inside one panel and a later
+    column of the same panel whose U-segment in it has length >= 4 and starts s >= 1 columns after the supernode's first
+    column (the 'sup-col' branch with a partial segment; segments of length 1..3 take the unrolled branches).  Panels are
+    halved for the last 12*panel_size columns (SPLIT_TOP), so panel_size 16..24 is used to get 8..12 columns per panel.
+    Diagonally dominant values, natural order: the pivots stay on the diagonal and the pattern is the one built here."""
+    rng = ctx.rng
+    out, cid = [], start_id
+    for rep in range(10 if ctx.quick() else 80):
+        w = rng.choice([16, 20, 24]); half = w // 2
+        b = rng.randint(5, half - 2)                 # columns of the in-panel supernode
+        k0 = rng.choice([0, 0, 1, 2]) if b + 3 <= half else 0
+        seglen = rng.randint(4, b - 1) if b > 4 else 4
+        s_ = b - seglen                              # the segment starts s_ columns after the supernode's first column
+        ntail = rng.randint(2, 6)
+        n = half + rng.randint(0, half) + ntail
+        ent = {}
+        low = sorted(rng.sample(range(half, n), min(n - half, rng.randint(1, 4))))     # rows below the panel shared by the supernode
+        for j in range(k0, k0 + b):
+            for i in range(k0, k0 + b):
+                ent[(i, j)] = gen.val(rng)
+            for i in low:
+                ent[(i, j)] = gen.val(rng)
+        jc = k0 + b + rng.randint(0, max(0, half - (k0 + b) - 1))                        # a later column of the same panel
+        for i in range(k0 + s_, k0 + b):
+            ent[(i, jc)] = gen.val(rng)
+        for i in low:
+            ent[(i, jc)] = gen.val(rng)
+        for j in range(n):
+            if rng.random() < 0.3 and j + 1 < n:
+                ent.setdefault((j + 1, j), gen.val(rng))
+        cs = {}
+        for (i, j), v in ent.items():
+            if i != j:
+                cs[j] = cs.get(j, 0.0) + abs(v)
+        for j in range(n):
+            ent[(j, j)] = (cs.get(j, 0.0) * 2 + 1.0) * rng.choice([1, -1])
+        A = gen.from_entries(n, ent, "inpanel")
+        cid += 1
+        out.append(dict(id=cid, driver="gstrf", m=n, n=n, colptr=A["colptr"], rowind=A["rowind"], vals=A["vals"], nrhs=0, rhs=[],
+                        nprocs=rng.choice([1, 2, 4]), colperm=0, ienv=[w, 1, max(b, rng.choice([8, 200])), 200, 100, -50, -50, -30],
+                        thresh=rng.choice([1.0, 0.1, 0.0]), perturb=[rng.randint(1, 10 ** 6), rng.choice([0.0, 0.2]), rng.choice([0, 100])],
+                        trace=2, dumplu=1, timeout=90, kind="inpanel"))
+    return out
+
+
 def forced_pivot_cases(ctx, start_id):
     """all 0/1 patterns with n <= 3 (thorough: sample of n = 4) under every forced pivot order (usepr, u = 0)"""
     rng = ctx.rng
@@ -183,6 +229,7 @@ def run(ctx):
     ctx.coq_properties()
     pdrv = ctx.ocaml_model("pivot")
     cases = gen_cases(ctx)
+    cases += inpanel_cases(ctx, len(cases))
     cases += forced_pivot_cases(ctx, len(cases))
     npiv = 0
     ncert = 0
